@@ -217,6 +217,17 @@ def check(prog, run):
                                "SkipNode is raised without a validation error on this path while %s already pushed state for %s: its "
                                "leave is skipped and the stacks drift for the rest of a document that may be valid" % (earlier, kind))
 
+    # ---- F1 fragment closures (shared with C06.R3): a missed nested fragment means a validated document can crash
+    r = run.rule("F1", "fragment reachability closures used by the variable rules and the cycle rule never stop at a visited or "
+                       "leaf element (`break`/`return` on a membership test inside the closure loop): otherwise undefined "
+                       "variables or cycles deeper in the spread graph pass validation and crash execution", 2)
+    vc = prog.get_class(VISITORS, "VariablesCollector")
+    nf = rcs.get("NoFragmentCyclesChecker")
+    fns = [vc.methods["_flatten_fragments"]] + (list(nf.methods["leave_document"].nested.values()) if nf and "leave_document" in nf.methods else [])
+    for f in fns:
+        r.instance("closure %s" % f.qualname)
+    c06.closure_breaks(prog, run, r, fns)
+
     # ---- A1 definite assignment in the execution path
     r = run.rule("A1", "every local variable read in execution/** and utilities/** functions is assigned on every path reaching "
                        "the read (definite assignment over the CFG incl. exception edges)", 100)
